@@ -86,7 +86,7 @@ var propSpecs = map[string]PropSpec{
 	"C15": {Profile: Profile{MaxOps: 12, Cli: true},
 		Kinds: kinds("cli", "hdr", "obj", "file", "shape"), Cases: [2]int{160, 3000}, Oracles: []string{"C15"},
 		Corr: "corr.C15.siftool (exit status, dump output and the file's full view after every siftool invocation = Model/Siftool.lean composed with the library model)"},
-	"C14": {Profile: Profile{MaxCap: 6, MaxOps: 20, BigData: true, Backends: []string{"buf"}, Rejects: 120, DetBias: 1000, FailReaders: true, Truncs: true},
+	"C14": {Profile: Profile{MaxCap: 6, MaxOps: 20, BigData: true, Backends: []string{"buf"}, Rejects: 120, DetBias: 1000, FailReaders: true, Truncs: true, Readd: true},
 		Kinds: kinds("res", "hdr", "obj", "file", "rl", "shape", "st"), Cases: [2]int{350, 6000}, Backends: true,
 		Corr: "corr.C14.backends (Lean Buffer model = sif.Buffer, Lean file model = os.File, same histories)"},
 }
@@ -273,7 +273,25 @@ func runHistory(dir string, seed uint64, spec PropSpec, shipped string) (*Case, 
 		}
 		n := 2 + r.Intn(spec.Profile.MaxOps)
 		for k := 0; k < n; k++ {
-			emit(&Op{Kind: "cli", Cli: g.cliNext(inspect(e.f))})
+			var hdr0 []byte
+			if b, err := os.ReadFile(e.path); err == nil && len(b) >= 128 {
+				hdr0 = append([]byte(nil), b[:128]...)
+			}
+			co := &Op{Kind: "cli", Cli: g.cliNext(inspect(e.f))}
+			cobs := emit(co)
+			if hdr0 != nil && e.f != nil && (co.Cli.Cmd == "add" || co.Cli.Cmd == "del") && len(cobs) > 0 && strings.HasPrefix(cobs[0], "cli ok") && r.Chance(1, 6) {
+				// the command was cut short between its table write and its header write (or another
+				// writer does not keep the header's counters): new table, old header — what header,
+				// list and info print is still what the file says
+				emit(&Op{Kind: "fpatch", Sites: []PatchSite{{Off: 0, B: hdr0}}})
+				truncated = true
+				g.count("cli:header-left-behind-the-table")
+				emit(obsOp())
+				emit(&Op{Kind: "cli", Cli: &CliOp{Cmd: "header"}})
+				emit(&Op{Kind: "cli", Cli: &CliOp{Cmd: "list"}})
+				emit(&Op{Kind: "cli", Cli: &CliOp{Cmd: "info", Arg: "1"}})
+				return c, vs, g.stats
+			}
 			emit(obsOp())
 			if e.f != nil && r.Chance(1, 14) {
 				// a partial copy of the image: the file ends inside (or at the start of) an object,
